@@ -22,6 +22,7 @@ class Tags:
         self.t = {}  # (local, idx|None) -> set
         self.summaries = summaries or {}
         self.seed_sites = []
+        self.seeded = {}   # container local -> item-side tags it receives directly (Side arms, out-parameter summaries)
         self.run()
 
     # -------------------------------------------------------------- store
@@ -73,7 +74,7 @@ class Tags:
         # a child link has its own side, whatever the container's tags
         for e in pl['p']:
             if e['k'] == 'field' and e['n'] in ('left', 'right') and 'NodeId' in e.get('ty', ''):
-                return {'L' if e['n'] == 'left' else 'R'}
+                return {'Ll' if e['n'] == 'left' else 'Rl'}
         path, _exact = self.place_path(pl)
         out = set()
         for tg in self.subtree(pl['l'], path).values():
@@ -86,9 +87,9 @@ class Tags:
         if op.get('k') == 'const':
             txt = op['c'].get('text', '')
             if 'Side::Left' in txt:
-                return {'L'}
+                return {'Li'}
             if 'Side::Right' in txt:
-                return {'R'}
+                return {'Ri'}
         return set()
 
     def copy_tree(self, dl, dpath, op):
@@ -98,7 +99,7 @@ class Tags:
             pl = op['place']
             for e in pl['p']:
                 if e['k'] == 'field' and e['n'] in ('left', 'right') and 'NodeId' in e.get('ty', ''):
-                    return self.add(dl, dpath, {'L' if e['n'] == 'left' else 'R'})
+                    return self.add(dl, dpath, {'Ll' if e['n'] == 'left' else 'Rl'})
             sp, _exact = self.place_path(pl)
             for rest, tg in self.subtree(pl['l'], sp).items():
                 changed |= self.add(dl, tuple(dpath) + rest, set(tg))
@@ -128,10 +129,10 @@ class Tags:
             listed = {int(v): t for v, t in sw['targets']}
             for v, t in listed.items():
                 if v in (0, 1):
-                    out.append((b, t, 'L' if v == 0 else 'R'))
+                    out.append((b, t, 'Li' if v == 0 else 'Ri'))
             if len(listed) == 1:
                 v = list(listed)[0]
-                out.append((b, sw['otherwise'], 'R' if v == 0 else 'L'))
+                out.append((b, sw['otherwise'], 'Ri' if v == 0 else 'Li'))
         return out
 
     def run(self):
@@ -157,6 +158,7 @@ class Tags:
                 if cl is not None:
                     self.add(cl, None, set(tags))
                     self.seed_sites.append((c, list(tags)[0], cl))
+                    self.seeded.setdefault(cl, set()).update(tags)
         changed = True
         it = 0
         while changed and it < 50:
@@ -215,6 +217,7 @@ class Tags:
                                 cl = self._deref_root(t['args'][i])
                                 if cl is not None:
                                     changed |= self.add(cl, None, set(tags))
+                                    self.seeded.setdefault(cl, set()).update(tags)
                     # receiver mutated by push/insert/extend with tagged values (outside Side arms): container takes the value's tags
                     if c.callee.endswith(('::push', '::insert', '::extend', '::bitor_assign', '::push_back')) and len(t['args']) >= 2:
                         cl = self._deref_root(t['args'][0])
@@ -232,7 +235,7 @@ class Tags:
             tg |= self.read_op(rv['a'])
         elif k == 'agg':
             if rv.get('adt', '').endswith('internals::Side'):
-                tg.add('L' if rv['variant'] == 'Left' else 'R')
+                tg.add('Li' if rv['variant'] == 'Left' else 'Ri')
             for o in rv['ops']:
                 tg |= self.read_op(o)
         elif k == 'binop':
@@ -264,6 +267,12 @@ class Tags:
                 return l
             l = t
         return l
+
+
+def side_of(tags):
+    """'L' / 'R' when every tag (links `*l`, routed items `*i`) agrees on one side, else None"""
+    sides = {t[0] for t in tags}
+    return list(sides)[0] if len(sides) == 1 else None
 
 
 def out_param_summary(F, g):
@@ -305,13 +314,39 @@ def check_pairing(ctx, rule, fns=None):
         if not aggs:
             continue
         tg = Tags(F, f, summaries)
+        # a container is filled from one side only: the same local receiving items under a Left arm here and under a Right
+        # arm (or through a helper's Right out-parameter) there is a dispatch bug whatever happens to it afterwards
+        for cl, tgs in sorted(tg.seeded.items()):
+            sides = {t[0] for t in tgs}
+            ctx.check(len(sides) <= 1, rule, '%s/one-side-per-container/%s' % (f.path, f.local_name(cl) or cl), f.loc(), 'container `%s` only receives %s items' % (f.local_name(cl) or cl, sorted(tgs)),
+                      'in `%s` the container `%s` receives items routed to both sides (%s): items sent Left and items sent Right end up under the same child' % (f.path, f.local_name(cl) or cl, sorted(tgs)))
         for bi, st, d in aggs:
             n += 1
             lt = tg.read_op(d['left'])
             rt = tg.read_op(d['right'])
             key = '%s/split#%d' % (f.path, n)
             where = '%s:%d' % (st['span']['file'], st['span']['line'])
-            ctx.check(lt == {'L'} and rt == {'R'}, rule, key, where, 'left child derives from the Left side only, right child from the Right side only',
-                      'in `%s` the children of the split node built at line %d are not paired with their sides (left derives from %s, right from %s): items routed Left would be stored under the right child (or vice versa) and searches descend into the wrong subtree' % (
-                          f.path, st['span']['line'], sorted(lt) or 'nothing known', sorted(rt) or 'nothing known'))
+            # two families of evidence: the stored links the children derive from (`*l`) and the side the routed items were
+            # sent to (`*i`).  A family that says the wrong side only is a definite mis-pairing; a family that is mixed on a
+            # side (values travelling through containers / closures the propagation cannot separate) is undecided and left
+            # to the other family and to the symmetric rules; at least one family must decide each side.
+            wrong = []
+            decided = {'left': False, 'right': False}
+            for fam, what in (('l', 'stored link'), ('i', 'routed items')):
+                lf = {t for t in lt if t.endswith(fam)}
+                rf = {t for t in rt if t.endswith(fam)}
+                if lf and 'L' + fam not in lf:
+                    wrong.append('left child built from the right %s' % what)
+                if rf and 'R' + fam not in rf:
+                    wrong.append('right child built from the left %s' % what)
+                decided['left'] = decided['left'] or lf == {'L' + fam}
+                decided['right'] = decided['right'] or rf == {'R' + fam}
+            good = not wrong and decided['left'] and decided['right']
+            if not wrong and not good and lt and rt:
+                # evidence present but mixed on both families: undecided here (no definite mis-pairing)
+                ctx.ok(rule, key, where, 'undecided by tag propagation (left from %s, right from %s): no definite mis-pairing' % (sorted(lt), sorted(rt)))
+                continue
+            ctx.check(good, rule, key, where, 'left child derives from the Left side only, right child from the Right side only',
+                      'in `%s` the children of the split node built at line %d are not paired with their sides (left derives from %s, right from %s%s): items routed Left would be stored under the right child (or vice versa) and searches descend into the wrong subtree' % (
+                          f.path, st['span']['line'], sorted(lt) or 'nothing known', sorted(rt) or 'nothing known', ('; ' + '; '.join(wrong)) if wrong else ''))
     return n, summaries
